@@ -281,6 +281,10 @@ theorem annotateAndPush_spec (i : Input) (sg : SignerCfg) (pay : AnnMap) (w : Wo
     (sgn : Option (Nat × AnnMap)) (pc : Option AnnMap) (resolved : MapRef) (k : Nat) (hv : validRef w.heap resolved) :
     w.heap.cells <+: (annotateAndPush i sg pay w { resolveArg := ra, signed := sgn, pluginCfg := pc } resolved k).1.heap.cells ∧
     (annotateAndPush i sg pay w { resolveArg := ra, signed := sgn, pluginCfg := pc } resolved k).1.handed = w.handed ∧
+    (∀ p ∈ (annotateAndPush i sg pay w { resolveArg := ra, signed := sgn, pluginCfg := pc } resolved k).1.produced,
+      p ∈ w.produced ∨
+      (validRef (annotateAndPush i sg pay w { resolveArg := ra, signed := sgn, pluginCfg := pc } resolved k).1.heap p.1 ∧
+       (annotateAndPush i sg pay w { resolveArg := ra, signed := sgn, pluginCfg := pc } resolved k).1.heap.read p.1 = p.2)) ∧
     (annotateAndPush i sg pay w { resolveArg := ra, signed := sgn, pluginCfg := pc } resolved k).1.tag = w.tag ∧
     (annotateAndPush i sg pay w { resolveArg := ra, signed := sgn, pluginCfg := pc } resolved k).1.sigs =
       (if effKind sg == .ok && i.repo.push != .fails then bump k w.sigs else w.sigs) ∧
@@ -312,40 +316,54 @@ theorem annotateAndPush_spec (i : Input) (sg : SignerCfg) (pay : AnnMap) (w : Wo
   cases hk : effKind sg
   · -- ok
     simp only [alloc_addr]
-    cases hp : i.repo.push <;> simp [hw2, hread, hres]
-  · simp
-  · simp
-  · simp [alloc_addr, hw1]
+    have hval : validRef (((w.heap.alloc sg.pluginAnn).1.write (some w.heap.cells.length) Facts.c11ThumbprintKey
+        (jsonArray sg.thumbs)).write (some w.heap.cells.length) Facts.c11CreatedKey (rfc3339 sg.time)) (some w.heap.cells.length) := by
+      show w.heap.cells.length < _
+      rw [write_length]; exact hlen2
+    cases hp : i.repo.push <;> simp [hw2, hread, hres] <;>
+      (intro a b hab; rcases hab with hab | ⟨rfl, rfl⟩
+       · exact Or.inl hab
+       · exact Or.inr ⟨hval, hread⟩)
+  · simp; intro a b hab; exact Or.inl hab
+  · simp; intro a b hab; exact Or.inl hab
+  · simp [alloc_addr, hw1]; intro a b hab; exact Or.inl hab
 
 /-! ### one call -/
 
 /-- the invariant of a history: the cells set up at the start are a prefix of the heap (so they still have
 their contents), every annotation map handed out still reads as it did then, and the tag names an artifact -/
 def Inv (i : Input) (w : World) : Prop :=
-  initCells i <+: w.heap.cells ∧ (∀ p ∈ w.handed, validRef w.heap p.1 ∧ w.heap.read p.1 = p.2) ∧
+  initCells i <+: w.heap.cells ∧ (∀ p ∈ w.handed ++ w.produced, validRef w.heap p.1 ∧ w.heap.read p.1 = p.2) ∧
   (∀ k, w.tag = some k → k < i.arts.length)
 
 theorem Inv_ext {i : Input} {w : World} (hinv : Inv i w) {h' : Heap} (hp : w.heap.cells <+: h'.cells) (n : List Nat) :
-    Inv i { heap := h', tag := w.tag, handed := w.handed, sigs := n } := by
+    Inv i { heap := h', tag := w.tag, handed := w.handed, sigs := n, produced := w.produced } := by
   refine ⟨List.IsPrefix.trans hinv.1 hp, ?_, hinv.2.2⟩
   intro p hpm
   obtain ⟨hv, hr⟩ := hinv.2.1 p hpm
   exact ⟨validRef_of_prefix hp hv, by rw [read_of_prefix hp hv, hr]⟩
 
 theorem Inv_hand {i : Input} {w : World} (hinv : Inv i w) {r : MapRef} (hv : validRef w.heap r) :
-    Inv i { heap := w.heap, tag := w.tag, handed := w.handed ++ [(r, w.heap.read r)], sigs := w.sigs } := by
+    Inv i { heap := w.heap, tag := w.tag, handed := w.handed ++ [(r, w.heap.read r)], sigs := w.sigs, produced := w.produced } := by
   refine ⟨hinv.1, ?_, hinv.2.2⟩
   intro p hpm
   simp only [List.mem_append, List.mem_singleton] at hpm
-  rcases hpm with hpm | rfl
-  · exact hinv.2.1 p hpm
+  rcases hpm with (hpm | rfl) | hpm
+  · exact hinv.2.1 p (List.mem_append.2 (Or.inl hpm))
   · exact ⟨hv, rfl⟩
+  · exact hinv.2.1 p (List.mem_append.2 (Or.inr hpm))
 
 theorem Inv_of {i : Input} {w : World} (hinv : Inv i w) (w' : World) (hp : w.heap.cells <+: w'.heap.cells)
-    (hh : w'.handed = w.handed) (ht : w'.tag = w.tag) : Inv i w' := by
-  have := Inv_ext hinv hp w'.sigs
-  rw [← hh, ← ht] at this
-  exact this
+    (hh : w'.handed = w.handed) (ht : w'.tag = w.tag)
+    (hpd : ∀ p ∈ w'.produced, p ∈ w.produced ∨ (validRef w'.heap p.1 ∧ w'.heap.read p.1 = p.2)) : Inv i w' := by
+  have h0 := Inv_ext hinv hp w'.sigs
+  refine ⟨h0.1, ?_, by rw [ht]; exact hinv.2.2⟩
+  intro p hpm
+  rcases List.mem_append.1 hpm with hm | hm
+  · exact h0.2.1 p (List.mem_append.2 (Or.inl (by rw [hh] at hm; exact hm)))
+  · rcases hpd p hm with hold | hnew
+    · exact h0.2.1 p (List.mem_append.2 (Or.inr hold))
+    · exact hnew
 
 /-- moving or deleting the tag keeps the invariant (the tag must name an existing artifact) -/
 theorem Inv_retag {i : Input} {w : World} (hinv : Inv i w) (t : Option Nat) (ht : ∀ k, t = some k → k < i.arts.length) :
@@ -443,8 +461,8 @@ theorem signOCI_spec (i : Input) (w : World) (c : Step) (hinv : Inv i w) (hn : 0
       simp only [] at hres
       obtain ⟨hrs, hkn, hp1, hv1, hrd1⟩ := hres
       rw [Inv_art hinv hkn, ← resolvedAnn_eq] at hrd1
-      have hinv1 : Inv i { heap := h1, tag := w.tag, handed := w.handed ++ [(resolved, h1.read resolved)], sigs := w.sigs } :=
-        Inv_hand (w := { heap := h1, tag := w.tag, handed := w.handed, sigs := w.sigs }) (Inv_ext hinv hp1 _) hv1
+      have hinv1 : Inv i { heap := h1, tag := w.tag, handed := w.handed ++ [(resolved, h1.read resolved)], sigs := w.sigs, produced := w.produced } :=
+        Inv_hand (w := { heap := h1, tag := w.tag, handed := w.handed, sigs := w.sigs, produced := w.produced }) (Inv_ext hinv hp1 _) hv1
       simp only []
       by_cases harg : refArg c.ref = .otherDigest
       · simp only [harg, beq_self_eq_true, if_true]
@@ -458,7 +476,7 @@ theorem signOCI_spec (i : Input) (w : World) (c : Step) (hinv : Inv i w) (hn : 0
         generalize haum : addUserMetadata h1 resolved c.md = res at hp2 hv2 hok hmerged
         obtain ⟨h2, toSign, ok⟩ := res
         simp only [] at hp2 hv2 hok hmerged ⊢
-        have hinv2 : Inv i { heap := h2, tag := w.tag, handed := w.handed ++ [(resolved, h1.read resolved)], sigs := w.sigs } :=
+        have hinv2 : Inv i { heap := h2, tag := w.tag, handed := w.handed ++ [(resolved, h1.read resolved)], sigs := w.sigs, produced := w.produced } :=
           Inv_ext hinv1 hp2 _
         have hrefused : refused i c k = !ok := by
           simp [refused, digestMismatch, hne, hasReserved, collides_eq, hok, isReserved_eq_spec]
@@ -483,12 +501,12 @@ theorem signOCI_spec (i : Input) (w : World) (c : Step) (hinv : Inv i w) (hn : 0
               rfl
           | some pay =>
             simp only []
-            obtain ⟨hp3, hh3, htg3, hs3, ht3⟩ := annotateAndPush_spec i (signerOf i c) pay
-              { heap := h2, tag := w.tag, handed := w.handed ++ [(resolved, h1.read resolved)], sigs := w.sigs }
+            obtain ⟨hp3, hh3, hpd3, htg3, hs3, ht3⟩ := annotateAndPush_spec i (signerOf i c) pay
+              { heap := h2, tag := w.tag, handed := w.handed ++ [(resolved, h1.read resolved)], sigs := w.sigs, produced := w.produced }
               (some (refArg c.ref)) (some (k, requested i c k))
               (if isPlugin (signerOf i c).impl then some (merged (signerOf i c).config (cfgOf i c)) else none) resolved k hv2'
             refine ⟨?_, ?_, htg3, ?_, ?_⟩
-            · exact Inv_of hinv2 _ hp3 hh3 htg3
+            · exact Inv_of hinv2 _ hp3 hh3 htg3 hpd3
             · exact List.IsPrefix.trans hp1 (List.IsPrefix.trans hp2 hp3)
             · rw [hs3]
               cases hkind : (effKind (signerOf i c) == SignerKind.ok) <;> cases hpk : i.repo.push <;>
@@ -516,7 +534,7 @@ def expectedObs (i : Input) (tag : Option Nat) (c : Step) (before : List Nat) : 
     pluginCfg := (reachesSigner i tag c).bind (fun _ =>
       if isPlugin (signerOf i c).impl then some (merged (signerOf i c).config (cfgOf i c)) else none),
     returned := if (pushes i tag c).isSome then .resolved else .zero,
-    repoViewSame := true, handedSame := true, optsSame := true,
+    repoViewSame := true, handedSame := true, optsSame := true, producedSame := true,
     sigCounts := sigsAfter i tag c before }
 
 /-- the whole history in closed form: the tag follows the `tagTo` / `untag` steps and nothing else; the signature
@@ -542,7 +560,7 @@ theorem observe_of_Inv (i : Input) (w : World) (t : Trace) (hinv : Inv i w) :
         subject := t.subject.map (mkDesc i), pushAnn := t.pushAnn,
         payload := t.payload.map (mkDesc i), pluginCfg := t.pluginCfg,
         returned := if t.returnedResolved then .resolved else .zero,
-        repoViewSame := true, handedSame := true, optsSame := true, sigCounts := w.sigs } := by
+        repoViewSame := true, handedSame := true, optsSame := true, producedSame := true, sigCounts := w.sigs } := by
   have h0 : (w.heap.cells.take i.arts.length == i.arts.map (·.ann)) = true := by
     obtain ⟨t, ht⟩ := hinv.1
     simp [← ht, initCells]
@@ -550,7 +568,12 @@ theorem observe_of_Inv (i : Input) (w : World) (t : Trace) (hinv : Inv i w) :
     rw [List.all_eq_true]
     intro p hp
     obtain ⟨r, snap⟩ := p
-    simpa using (hinv.2.1 _ hp).2
+    simpa using (hinv.2.1 _ (List.mem_append.2 (Or.inl hp))).2
+  have h1p : (w.produced.all fun x => match x with | (r, snap) => w.heap.read r == snap) = true := by
+    rw [List.all_eq_true]
+    intro p hp
+    obtain ⟨r, snap⟩ := p
+    simpa using (hinv.2.1 _ (List.mem_append.2 (Or.inr hp))).2
   have h3 : ((w.heap.cells.drop i.arts.length).take (i.pluginConfigs.length + i.steps.length) ==
       i.pluginConfigs ++ i.steps.map (·.md)) = true := by
     obtain ⟨t, ht⟩ := hinv.1
@@ -558,7 +581,7 @@ theorem observe_of_Inv (i : Input) (w : World) (t : Trace) (hinv : Inv i w) :
       (i.pluginConfigs.length + i.steps.length) (by simp) (by simp)
     simp only [← ht, initCells, List.append_assoc] at this ⊢
     simp only [this, beq_self_eq_true]
-  simp only [observe, h0, h1, h3, Bool.and_self, beq_self_eq_true]
+  simp only [observe, h0, h1, h1p, h3, Bool.and_self, beq_self_eq_true]
 
 def stepOk (i : Input) (s : Step) : Bool :=
   distinctKeys s.md && decide (s.to < i.arts.length) && decide (s.target < i.arts.length) &&
@@ -872,10 +895,12 @@ theorem refusals (i : Input) (hwf : wf i = true) {pre post : List Step} {s : Ste
 
 /-- **frame, as observed**: after every signing call of every history - successful or not - the repository resolves
 the tag and every digest exactly as just before the call, every descriptor it handed out is unchanged, and so are the
-caller's UserMetadata and PluginConfig maps; the signature counts change by the one push, if any. -/
+caller's UserMetadata and PluginConfig maps, and so is everything EARLIER pushes produced (the annotation map objects the
+repository keeps in its records of the earlier signatures and the callers got back); the signature counts change by the
+one push, if any. -/
 theorem frame (i : Input) (hwf : wf i = true) {pre post : List Step} {s : Step} {o : CallObs}
     (hsplit : i.steps = pre ++ s :: post) (hs : s.op = .sign) (ho : (run i).calls[nSigns pre]? = some o) :
-    o.repoViewSame = true ∧ o.handedSame = true ∧ o.optsSame = true ∧
+    o.repoViewSame = true ∧ o.handedSame = true ∧ o.optsSame = true ∧ o.producedSame = true ∧
     o.sigCounts = sigsAfter i (tagAfter i.tag pre) s (sigsThrough i i.tag (noSigs i) pre) := by
   rw [call_obs i hwf hsplit hs ho]
   simp [expectedObs]
@@ -1315,7 +1340,7 @@ def exObsGood : CallObs :=
     subject := some { mediaType := ['m'], digest := ['A'], size := 3, ann := [(['a'], ['1'])] },
     pushAnn := some (expectedPushAnn exSigner),
     payload := some { mediaType := ['m'], digest := ['A'], size := 3, ann := [(['a'], ['1'])] }, pluginCfg := none,
-    returned := .resolved, repoViewSame := true, handedSame := true, optsSame := true, sigCounts := [1, 0] }
+    returned := .resolved, repoViewSame := true, handedSame := true, optsSame := true, producedSame := true, sigCounts := [1, 0] }
 
 /-- `Holds` rejects the behaviour of the code before 303ff26: metadata written into the repository's map
 (subject carries it, repository view changed), second call refused -/
@@ -1328,7 +1353,7 @@ example : Holds (exInput [exSign .tag [(['b'], ['2'])], exSign .tag [(['b'], ['2
         repoViewSame := false, handedSame := false },
       { ok := false, resolveArg := some .tag, signed := none, subject := none, pushAnn := none, payload := none,
         pluginCfg := none, returned := .zero,
-        repoViewSame := false, handedSame := false, optsSame := true, sigCounts := [1, 0] }] } = false := by decide
+        repoViewSame := false, handedSame := false, optsSame := true, producedSame := true, sigCounts := [1, 0] }] } = false := by decide
 
 /-- `Holds` rejects a repository client that remembers what a reference resolved to: after the tag moved to B the
 second call still signs A and attaches the signature to A - and names the clauses -/
@@ -1343,6 +1368,11 @@ example : (clauses (exInputWith [exPlugin .generic .faithful []] [[]] [exSign .t
     { calls := [{ exObsGood with
         signed := some { mediaType := ['m'], digest := ['A'], size := 3, ann := [(['a'], ['1']), (['r'], [])] } }] }).failed =
     ["signed_payload_covers_resolved_plus_metadata"] := by decide
+
+/-- `Holds` rejects a later call that empties what an earlier push produced (the annotation map the repository keeps
+in its record of signature #1 and the caller got back in the manifest descriptor) -/
+example : (clauses (exInput [exSign .tag [], exSign .tag []])
+    { calls := [exObsGood, { exObsGood with sigCounts := [2, 0], producedSame := false }] }).failed = ["frame"] := by decide
 
 /-- `Holds` rejects signer defaults left behind in the caller's PluginConfig map -/
 example : (clauses (exInputWith [exPlugin .pluginSig .faithful [(['v'], ['a'])]] [[(['t'], ['1'])]] [exSign .tag []])
